@@ -232,8 +232,11 @@ func (c17Silent) Infof(string, ...interface{})  {}
 func (c17Silent) Warnf(string, ...interface{})  {}
 func (c17Silent) Errorf(string, ...interface{}) {}
 
+// c17Chunk is the binlog's MaxChunkSize (the child of the concurrent-writers variant raises it: no rotation there).
+var c17Chunk uint32 = c17ChunkSize
+
 func c17BinlogOptions(dir string, writeDelay time.Duration) fsbinlog.Options {
-	return fsbinlog.Options{PrefixPath: filepath.Join(dir, "bl", "c17"), Magic: c17BinlogMagic, MaxChunkSize: c17ChunkSize, WriteCallDelay: &writeDelay}
+	return fsbinlog.Options{PrefixPath: filepath.Join(dir, "bl", "c17"), Magic: c17BinlogMagic, MaxChunkSize: c17Chunk, WriteCallDelay: &writeDelay}
 }
 
 func c17OpenEngine(dir string, mode DurabilityMode, commitEvery, writeDelay time.Duration) (*Engine, error) {
@@ -321,7 +324,13 @@ func TestVerifC17Child(t *testing.T) {
 		t.Fatal(err)
 	}
 	ack := &c17AckLog{f: af}
-	eng, err := c17OpenEngine(dir, mode, commitEvery, 6*time.Millisecond)
+	variant := os.Getenv("C17_VARIANT")
+	writeDelay := 6 * time.Millisecond
+	if variant == "conc" {
+		c17Chunk = 1 << 16
+		writeDelay = 12 * time.Millisecond
+	}
+	eng, err := c17OpenEngine(dir, mode, commitEvery, writeDelay)
 	if err != nil {
 		ack.line("openerr %q", err.Error())
 		os.Exit(3)
@@ -390,7 +399,13 @@ func TestVerifC17Child(t *testing.T) {
 	}()
 
 	errFail := errors.New("c17: callback fails on purpose")
+	if variant == "conc" {
+		c17ConcurrentWriters(eng, ack, &mu, states, cur, nWrites, errFail)
+	}
 	for _, op := range c17Workload(nWrites) {
+		if variant == "conc" {
+			break
+		}
 		switch op.Kind {
 		case "view":
 			viewOnce("main")
@@ -429,6 +444,58 @@ func TestVerifC17Child(t *testing.T) {
 	}
 	ack.line("closed")
 	os.Exit(0)
+}
+
+// c17ConcurrentWriters is the workload of the "conc" variant: 4 writer goroutines with different think times
+// (3, 7, 11, 13 ms) issue `per` Do()s each over 3 colliding keys (set / non-idempotent add / delete), one of them
+// also a failing callback. With think times a Do regularly ARRIVES while the periodic commit is waiting for the
+// binlog commit of an earlier write (writers that only run back to back are all blocked on the same binlog commit in
+// wait-for-commit mode and never arrive during that wait). The sequence number of an event and the model state are
+// fixed inside the callback, which the engine serialises, so binlog order == sequence order.
+func c17ConcurrentWriters(eng *Engine, ack *c17AckLog, mu *sync.Mutex, states map[string]bool, cur map[int64]int64, per int, errFail error) {
+	think := []time.Duration{3 * time.Millisecond, 7 * time.Millisecond, 11 * time.Millisecond, 13 * time.Millisecond}
+	kinds := []string{"set", "add", "set", "del"}
+	seq := 0
+	var wg sync.WaitGroup
+	for g := range think {
+		wg.Add(1)
+		go func(g int) {
+			defer wg.Done()
+			time.Sleep(time.Duration(g) * 2 * time.Millisecond)
+			for j := 0; j < per; j++ {
+				op := c17Op{Kind: kinds[(g+2*j+j/2)%4], K: int64(1 + (g+j)%3), V: int64(10*(g+1) + j), Fill: (g + j) % 7}
+				if g == 1 && j == 1 {
+					err := eng.Do(context.Background(), "c17fail", func(c Conn, cache []byte) ([]byte, error) {
+						if _, err := c.Exec("c17set", "INSERT OR REPLACE INTO kv(k, v) VALUES ($k, $v)", Int64("$k", c17FailKey), Int64("$v", c17FailVal)); err != nil {
+							return nil, err
+						}
+						return c17Event(1000, c17Op{Kind: "set", K: c17FailKey, V: c17FailVal}), errFail
+					})
+					ack.line("fail %v", err != nil)
+				}
+				mySeq := -1
+				off, _, err := eng.DoWithOffset(context.Background(), "c17write", func(c Conn, cache []byte) ([]byte, error) {
+					if err := c17Exec(c, c17KindOf(op), op.K, op.V); err != nil {
+						return nil, err
+					}
+					mu.Lock()
+					mySeq = seq
+					seq++
+					c17ModelApply(cur, c17KindOf(op), op.K, op.V)
+					states[c17StateKey(cur)] = true
+					mu.Unlock()
+					return c17Event(mySeq, op), nil
+				})
+				if err != nil {
+					ack.line("writeerr %d %q", mySeq, err.Error())
+					os.Exit(4)
+				}
+				ack.line("ack %d %d", mySeq, off)
+				time.Sleep(think[g])
+			}
+		}(g)
+	}
+	wg.Wait()
 }
 
 // ---------------------------------------------------------------------------------------------------
@@ -644,6 +711,7 @@ func c17Restart(dir string) (c17DBState, error) {
 // parent: running children
 
 type c17Run struct {
+	Variant string // "seq": one writer, the scripted workload; "conc": 4 concurrent writers with think times
 	Class   string // which counter the kill point refers to: "binlog" or "sqlite"
 	Mode    string
 	N       int // kill point (0 = no injection)
@@ -857,6 +925,14 @@ type c17Cfg struct {
 	rebuilds atomic.Int64
 	stops    atomic.Int64
 	childNs  atomic.Int64
+	perConc  int // Do()s per writer goroutine in the concurrent variant
+}
+
+func (c *c17Cfg) size(variant string) int {
+	if variant == "conc" {
+		return c.perConc
+	}
+	return c.writes
 }
 
 type c17Fresh struct {
@@ -890,8 +966,8 @@ func (c *c17Cfg) freshRebuild(src, scratchDir string) (c17DBState, error) {
 
 // runChild prepares a fresh directory (the empty binlog is created here: the engine under test starts on an
 // existing binlog) and runs the workload process under the tracer; n>0 kills at the n-th matching syscall.
-func (c *c17Cfg) runChild(mode, class string, n int) (*c17Run, error) {
-	dir := filepath.Join(c.scratch, fmt.Sprintf("r%06d_%s_%s_%d", c.seq.Add(1), mode, class, n))
+func (c *c17Cfg) runChild(variant, mode, class string, n int) (*c17Run, error) {
+	dir := filepath.Join(c.scratch, fmt.Sprintf("r%06d_%s_%s_%s_%d", c.seq.Add(1), variant, mode, class, n))
 	for _, sub := range []string{"bl", "db"} {
 		if err := os.MkdirAll(filepath.Join(dir, sub), 0755); err != nil {
 			return nil, err
@@ -900,14 +976,14 @@ func (c *c17Cfg) runChild(mode, class string, n int) (*c17Run, error) {
 	if _, err := fsbinlog.CreateEmptyFsBinlog(c17BinlogOptions(dir, 0)); err != nil {
 		return nil, err
 	}
-	r := &c17Run{Mode: mode, Class: class, N: n, Dir: dir}
+	r := &c17Run{Variant: variant, Mode: mode, Class: class, N: n, Dir: dir}
 	var env []string
 	for _, e := range os.Environ() {
 		if !strings.HasPrefix(e, "VERIF_OUT=") && !strings.HasPrefix(e, "GOMAXPROCS=") {
 			env = append(env, e)
 		}
 	}
-	env = append(env, "C17_CHILD=1", "C17_DIR="+dir, "C17_MODE="+mode, "C17_N="+strconv.Itoa(c.writes), "GOMAXPROCS=4")
+	env = append(env, "C17_CHILD=1", "C17_DIR="+dir, "C17_MODE="+mode, "C17_N="+strconv.Itoa(c.size(variant)), "C17_VARIANT="+variant, "GOMAXPROCS=4")
 	argv := []string{c.exe, "-test.run", "^TestVerifC17Child$", "-test.count=1", "-test.timeout=120s"}
 	tr, err := c17Trace(argv, env, dir, class, n, 100*time.Second)
 	c.stops.Add(int64(tr.Stops))
@@ -981,12 +1057,13 @@ func (c *c17Cfg) check(r *c17Run, rep *mc.Report) (vs []c17Verdict, stateKey str
 			detail = map[string]any{}
 		}
 		detail["mode"] = r.Mode
+		detail["workload"] = r.Variant
 		detail["kill_at_syscall"] = fmt.Sprintf("%s #%d", r.Class, r.N)
 		if len(r.Traced) > 0 {
 			detail["killed_syscall"] = r.Traced[len(r.Traced)-1]
 		}
 		detail["acked_writes"] = r.Acks
-		vs = append(vs, c17Verdict{Sig: "C17:" + sig, Desc: fmt.Sprintf("mode=%s kill@%s#%d: %s", r.Mode, r.Class, r.N, desc), Detail: detail})
+		vs = append(vs, c17Verdict{Sig: "C17:" + sig, Desc: fmt.Sprintf("workload=%s mode=%s kill@%s#%d: %s", r.Variant, r.Mode, r.Class, r.N, desc), Detail: detail})
 	}
 	for _, b := range r.Bad {
 		sig := "reader-observes-unknown-state"
@@ -1063,7 +1140,7 @@ func (c *c17Cfg) check(r *c17Run, rep *mc.Report) (vs []c17Verdict, stateKey str
 		if _, ok := db.Rows[c17FailKey]; ok {
 			add("failed-callback-left-rows", "the row written by the failed callback is in the database", withBl(d))
 		}
-		stateKey = fmt.Sprintf("%s|db{%s}@%d|bl=%d/%d|j=%v", r.Mode, c17StateKey(db.Rows), db.Offset, len(bl.Events), bl.Length, db.Journal)
+		stateKey = fmt.Sprintf("%s/%s|db{%s}@%d|bl=%d/%d|j=%v", r.Variant, r.Mode, c17StateKey(db.Rows), db.Offset, len(bl.Events), bl.Length, db.Journal)
 		nontrivial = db.Journal || len(prefix) < len(bl.Events) || len(bl.Problems) > 0
 	}
 	// (ii) normal restart == fresh database built from the durable binlog == model
@@ -1124,9 +1201,10 @@ func TestVerifC17(t *testing.T) {
 	log.SetOutput(io.Discard)
 	rep := mc.NewReport("C17")
 	writes := mc.Pick(6, 12)
-	rep.Rule = "a case = one real child process running the workload under strace and killed (SIGKILL at syscall entry) at the N-th write-family syscall on a database or binlog file; every N of the unkilled run, both commit modes; after each kill the 4 clauses are checked on copies of the directory. non-trivial = crash state in which database and binlog disagree before recovery (stored offset behind the binlog end, hot journal, or binlog rotation half done)"
+	rep.Rule = "a case = one real child process running one of the two workloads under the harness's ptrace tracer and killed (SIGKILL at syscall entry) at the N-th write-family syscall on a database or binlog file; every N of the unkilled run, both commit modes; after each kill the 4 clauses are checked on copies of the directory. non-trivial = crash state in which database and binlog disagree before recovery (stored offset behind the binlog end, hot journal, or binlog rotation half done)"
 	rep.Bounds["writes"] = writes
 	rep.Bounds["workload"] = fmt.Sprintf("%d binlog-producing writes over 3-5 colliding keys (set/overwrite/delete/non-idempotent add), 1-2 callbacks that fail after executing SQL, View reads from the main goroutine and from a concurrent reader, 1-2 binlog rotations (MaxChunkSize %d), CommitEvery 10ms, WriteCallDelay 6ms", writes, c17ChunkSize)
+	rep.Bounds["workload_conc"] = fmt.Sprintf("concurrent writers: 4 goroutines with think times 3/7/11/13 ms issue %d Do() each over 3 colliding keys (set / non-idempotent add / delete) plus one failing callback and the concurrent reader; CommitEvery 10ms, WriteCallDelay 12ms, no rotation; sequence numbers and model states are fixed inside the (serialised) callback", mc.Pick(3, 5))
 	rep.Bounds["modes"] = []string{"WaitCommit", "NoWaitCommit"}
 	rep.Bounds["syscalls"] = c17Syscalls
 	rep.Assume("kill points of OBSERVED thread schedules are enumerated, not all schedules (the engine's goroutines and SQLite's C code run free); the oracle is an invariant of any crash state, so schedule variation changes the visited states, never the verdict on correct code")
@@ -1140,7 +1218,7 @@ func TestVerifC17(t *testing.T) {
 	if scratch == "" {
 		scratch = t.TempDir()
 	}
-	cfg := &c17Cfg{exe: exe, scratch: scratch, writes: writes}
+	cfg := &c17Cfg{exe: exe, scratch: scratch, writes: writes, perConc: mc.Pick(3, 5)}
 	shard, shards := mc.ShardFromEnv()
 
 	var execs, trans, nontriv atomic.Int64
@@ -1167,54 +1245,84 @@ func TestVerifC17(t *testing.T) {
 		t.Fatal(msg)
 	}
 	type job struct {
-		mode, class string
-		n           int
+		variant, mode, class string
+		n                    int
 	}
 	var jobs []job
 	refCount := map[string]int{}
-	for _, mode := range []string{"wait", "nowait"} {
-		// two unkilled reference runs: M = max number of matching syscalls per class
-		m := map[string]int{}
-		for k := 0; k < 2; k++ {
-			r, err := cfg.runChild(mode, "", 0)
-			if err != nil {
-				infra("reference run: " + err.Error())
-			}
-			if !r.Closed {
-				infra(fmt.Sprintf("reference run (%s) did not complete: exit=%d other=%v", mode, r.Exit, r.Other))
-			}
-			execs.Add(1)
-			vs, _, _ := cfg.check(r, rep)
-			emit(vs)
-			cnt := map[string]int{}
-			for _, s := range r.Traced {
-				cnt[c17Class(s[strings.Index(s, " ")+1:])]++
-			}
-			for c, n := range cnt {
-				if n > m[c] {
-					m[c] = n
-				}
-			}
-			if k == 0 {
-				rep.Sample(map[string]any{"mode": mode, "unkilled_run_syscalls": len(r.Traced), "per_class": cnt, "first_sites": c17Head(r.Traced, 25), "acks": r.Acks})
-			}
-			c17Remove(r.Dir)
-		}
-		for _, class := range []string{"binlog", "sqlite"} {
-			margin := 2
-			if class == "sqlite" {
-				margin = m[class]/10 + 5 // the number of SQLite commits depends on timing
-			}
-			refCount[mode+"/"+class] = m[class]
-			for n := 1; n <= m[class]+margin; n++ {
-				if mx, _ := strconv.Atoi(os.Getenv("C17_MAXN")); mx > 0 && n > mx { // debugging aid
-					break
-				}
-				jobs = append(jobs, job{mode, class, n})
+	variants := []string{"seq", "conc"}
+	if only := os.Getenv("C17_ONLY"); only != "" { // debugging aid
+		variants = []string{only}
+	}
+	// two unkilled reference runs per (workload, mode), all in parallel: M = max number of matching syscalls per class
+	type refKey struct{ variant, mode string }
+	refs := map[refKey][]*c17Run{}
+	var refMu sync.Mutex
+	var refWg sync.WaitGroup
+	var refErr atomic.Value
+	for _, variant := range variants {
+		for _, mode := range []string{"wait", "nowait"} {
+			for k := 0; k < 2; k++ {
+				refWg.Add(1)
+				go func(variant, mode string) {
+					defer refWg.Done()
+					r, err := cfg.runChild(variant, mode, "", 0)
+					if err != nil {
+						refErr.Store("reference run: " + err.Error())
+						return
+					}
+					if !r.Closed {
+						refErr.Store(fmt.Sprintf("reference run (%s, %s) did not complete: exit=%d other=%v bad=%v", variant, mode, r.Exit, r.Other, r.Bad))
+						return
+					}
+					refMu.Lock()
+					refs[refKey{variant, mode}] = append(refs[refKey{variant, mode}], r)
+					refMu.Unlock()
+				}(variant, mode)
 			}
 		}
 	}
-	rep.Bounds["kill_points"] = fmt.Sprintf("every k-th write-family syscall on the binlog files (wait: 1..%d, nowait: 1..%d) and every k-th on the database/journal files (wait: 1..%d, nowait: 1..%d, +10%% margin): every such syscall of the unkilled run belongs to exactly one of the two counters", refCount["wait/binlog"], refCount["nowait/binlog"], refCount["wait/sqlite"], refCount["nowait/sqlite"])
+	refWg.Wait()
+	if v := refErr.Load(); v != nil {
+		infra(v.(string))
+	}
+	for _, variant := range variants {
+		for _, mode := range []string{"wait", "nowait"} {
+			m := map[string]int{}
+			for k, r := range refs[refKey{variant, mode}] {
+				execs.Add(1)
+				vs, _, _ := cfg.check(r, rep)
+				emit(vs)
+				cnt := map[string]int{}
+				for _, s := range r.Traced {
+					cnt[c17Class(s[strings.Index(s, " ")+1:])]++
+				}
+				for c, n := range cnt {
+					if n > m[c] {
+						m[c] = n
+					}
+				}
+				if k == 0 {
+					rep.Sample(map[string]any{"workload": variant, "mode": mode, "unkilled_run_syscalls": len(r.Traced), "per_class": cnt, "first_sites": c17Head(r.Traced, 16), "acks": r.Acks})
+				}
+				c17Remove(r.Dir)
+			}
+			for _, class := range []string{"binlog", "sqlite"} {
+				margin := 2
+				if class == "sqlite" || variant == "conc" {
+					margin = m[class]/10 + 5 // the number of SQLite commits, and in the concurrent workload of binlog batches, depends on timing
+				}
+				refCount[variant+"/"+mode+"/"+class] = m[class]
+				for n := 1; n <= m[class]+margin; n++ {
+					if mx, _ := strconv.Atoi(os.Getenv("C17_MAXN")); mx > 0 && n > mx { // debugging aid
+						break
+					}
+					jobs = append(jobs, job{variant, mode, class, n})
+				}
+			}
+		}
+	}
+	rep.Bounds["kill_points"] = fmt.Sprintf("per workload and mode: every k-th write-family syscall on the binlog files and every k-th on the database/journal files of the unkilled run (+10%% margin where the count depends on timing); every such syscall belongs to exactly one of the two counters. unkilled-run counts: %v", refCount)
 
 	// binlog kill points first (their sequence is the deterministic one), then the database ones, modes interleaved,
 	// so that a wall-budget cap never removes a whole mode
@@ -1226,11 +1334,14 @@ func TestVerifC17(t *testing.T) {
 		if a.n != b.n {
 			return a.n < b.n
 		}
+		if a.variant != b.variant {
+			return a.variant < b.variant
+		}
 		return a.mode > b.mode
 	})
-	workers := runtime.GOMAXPROCS(0)
-	if workers > 12 {
-		workers = 12
+	workers := runtime.GOMAXPROCS(0) // the children mostly wait on timers and fsyncs
+	if workers > 16 {
+		workers = 16
 	}
 	ch := make(chan job)
 	var wg sync.WaitGroup
@@ -1245,7 +1356,7 @@ func TestVerifC17(t *testing.T) {
 					capped.Add(1)
 					continue
 				}
-				r, err := cfg.runChild(j.mode, j.class, j.n)
+				r, err := cfg.runChild(j.variant, j.mode, j.class, j.n)
 				if err != nil {
 					firstErr.Store(err.Error())
 					continue
@@ -1261,9 +1372,9 @@ func TestVerifC17(t *testing.T) {
 					survived.Add(1)
 				} else if len(r.Traced) > 0 {
 					sitesMu.Lock()
-					sites[j.mode+" "+r.Traced[len(r.Traced)-1]] = true
+					sites[j.variant+" "+j.mode+" "+r.Traced[len(r.Traced)-1]] = true
 					sitesMu.Unlock()
-					rep.Outcome(j.mode + " kill at " + r.Traced[len(r.Traced)-1])
+					rep.Outcome(j.variant + " " + j.mode + " kill at " + r.Traced[len(r.Traced)-1])
 				}
 				vs, key, nt := cfg.check(r, rep)
 				execs.Add(1) // the restart runs the real engine too
